@@ -38,6 +38,7 @@ EXPECT = [
     ("recursed without end", ["C15"]),
     ("MapSeq.Xml wrote malformed XML for an empty element", ["C04", "C18"]),
     ("x2j-wrapper ValuesFromKeyPath found nothing", ["C20"]),
+    ("descends a list nested in a list", ["C10"]),
     ("namespace prefix contains", ["C15"]),
 ]
 
